@@ -263,8 +263,9 @@ func c13Exec(c Case) (outs []string, fails []Failure, tags []string) {
 				}
 				fl(sig, fmt.Sprintf("first block after activation minted %s (stored prevTS %s, block time %d)", bank.minted, prevTS, t))
 			}
-			if pre.EnableCoinomics && lastEnabledBlockTime != 0 && bank.minted.Sign() > 0 && post.EnableCoinomics {
-				// formula with elapsed = this block − previous enabled block (consecutive timestamps)
+			// the formula amount (an 18-decimal fixed-point value, before the final rounding to a unit) with
+			// elapsed = this block − previous enabled block (consecutive timestamps)
+			formula := func() *big.Int {
 				yr := time.UnixMilli(t).UTC().Year()
 				ym := int64(31536000000)
 				if (yr%4 == 0 && yr%100 != 0) || yr%400 == 0 {
@@ -277,8 +278,10 @@ func c13Exec(c Case) (outs []string, fails []Failure, tags []string) {
 				el.Mul(el, new(big.Int).Mul(e18, e18)).Quo(el, new(big.Int).Mul(big.NewInt(ym), e18))
 				el = c13ChopRound(el)
 				m := c13ChopRound(new(big.Int).Mul(new(big.Int).Mul(stk.bonded, e18), rcq))
-				m = c13ChopRound(new(big.Int).Mul(m, el))
-				want := c13ChopRound(m)
+				return c13ChopRound(new(big.Int).Mul(m, el))
+			}
+			if pre.EnableCoinomics && lastEnabledBlockTime != 0 && bank.minted.Sign() > 0 && post.EnableCoinomics {
+				want := c13ChopRound(formula())
 				if want.Cmp(bank.minted) != 0 {
 					fl("C13:formula", fmt.Sprintf("minted %s, formula with elapsed %d ms gives %s", bank.minted, t-lastEnabledBlockTime, want))
 				}
@@ -291,9 +294,11 @@ func c13Exec(c Case) (outs []string, fails []Failure, tags []string) {
 			}
 			if pre.EnableCoinomics {
 				// "consecutive block timestamps": every block processed while enabled becomes the reference of the
-				// next one — except when the clock ran backwards or the reward is negative (cannot happen under
-				// CometBFT / sane params; the code then mints nothing and keeps the old reference)
-				negative := lastEnabledBlockTime != 0 && (t < lastEnabledBlockTime || pre.RewardCoefficient.IsNegative())
+				// next one — except when the formula amount is negative (the clock ran backwards or the coefficient is
+				// negative, with something bonded: cannot happen under CometBFT / sane params; the code then mints
+				// nothing and keeps the old reference).  A backwards step with nothing bonded has the amount 0 and
+				// is a reference like any other block.
+				negative := lastEnabledBlockTime != 0 && formula().Sign() < 0
 				if !negative {
 					lastEnabledBlockTime = t
 				}
